@@ -471,6 +471,22 @@ def rule_pass(text, log, cfgset):
             BSTR_DEFS[nm] = t.text
             rec("R13-bytestr-literal", t.start, t.end, nm)
             continue
+        # R16 `for (I, PAT) in EXPR.enumerate() {` -> counter variable (std: enumerate yields (count, item), count from 0)
+        if t.text == "for" and t.kind == "id" and i + 3 < n and toks[i + 1].text == "(" and toks[i + 2].kind == "id" and toks[i + 3].text == ",":
+            pc = groups[i + 1]
+            if toks[pc + 1].text == "in":
+                j = pc + 2
+                while toks[j].text != "{":
+                    j = groups[j] + 1 if toks[j].text in ("(", "[") else j + 1
+                if j - 4 > pc and [x.text for x in toks[j - 4:j]] == [".", "enumerate", "(", ")"]:
+                    idx = toks[i + 2].text
+                    cnt = "shim_enum_" + idx
+                    pat = text[toks[i + 4].start:toks[pc - 1].end]
+                    rec("R16-enumerate", toks[i + 1].start, toks[pc].end, pat)
+                    rec("R16-enumerate", toks[j - 4].start, toks[j - 1].end, "")
+                    ed.insert(t.start, "let mut %s: usize = 0;\n" % cnt)
+                    ed.insert(toks[j].end, " let %s = %s; %s += 1;" % (idx, cnt, cnt))
+                    consumed.update(range(i + 1, pc + 1)); consumed.update(range(j - 4, j))
         # R2b wildcard closure parameter `|_|` -> `|_w|` (Verus: only variables are supported there)
         if t.text == "|" and i + 2 < n and toks[i + 1].text == "_" and toks[i + 2].text == "|":
             rec("R2b-closure-wildcard", toks[i + 1].start, toks[i + 1].end, "_w")
